@@ -438,6 +438,163 @@ theorem ticking_stops_only_closed (n : Node) (e : Ev) (hi : Inv n) (hr : n.runni
   let i := apply_inv n e hi
   ⟨(i.stopped_released h).2, (i.stopped_released h).1⟩
 
+/-! ### the history-level statement: Open needs an injected, valid capabilities-exchange message -/
+
+theorem goto_recvq (n : Node) (a b : St) : (goto n a b).recvq = n.recvq := by
+  unfold goto; split <;> rfl
+
+/-- a tick only removes messages from the receive queue (at most its head) -/
+theorem runState_recvq (n : Node) : ∀ m ∈ (runState n).1.recvq, m ∈ n.recvq := by
+  unfold runState
+  cases hs : n.st with
+  | closed =>
+    simp only [runClosed]
+    cases n.role with
+    | client => intro m h; exact h
+    | server =>
+      simp only
+      cases hq : n.recvq with
+      | nil => intro m h; simp [hq] at h
+      | cons x rest =>
+        simp only
+        split <;> (intro m h; simp_all [answer, send])
+  | waitConnAck =>
+    simp only [runWaitConnAck, connRecv]
+    have h1 : (connAttempt n).1.recvq = n.recvq := by
+      unfold connAttempt
+      cases n.tr with
+      | none => rfl
+      | some t => simp only; split <;> (try split) <;> rfl
+    cases hq : (connAttempt n).1.recvq with
+    | nil => intro m h; simp [hq] at h
+    | cons x rest =>
+      simp only
+      rw [h1] at hq
+      split <;> (intro m h; simp_all)
+  | waitICEA =>
+    simp only [runWaitICEA]
+    split
+    · intro m h; exact h
+    · cases hq : n.recvq with
+      | nil => intro m h; simp [hq] at h
+      | cons x rest =>
+        simp only
+        split
+        · split <;> (intro m h; simp_all)
+        · intro m h; simp_all
+  | opened =>
+    have ht : (trackEvents n).recvq = n.recvq := by
+      unfold trackEvents; split <;> (try split) <;> rfl
+    simp only [runOpen]
+    split
+    · intro m h; rw [ht] at h; exact h
+    · split
+      · intro m h; simp only [send] at h; rw [ht] at h; exact h
+      · split
+        · intro m h; simp only [flush] at h; rw [ht] at h; exact h
+        · cases hq : (trackEvents n).recvq with
+          | nil => intro m h; simp [hq] at h
+          | cons x rest =>
+            simp only
+            rw [ht] at hq
+            have key : (openRecv { trackEvents n with recvq := rest } x).1.recvq = rest := by
+              unfold openRecv
+              cases x.kind <;> simp only <;> (try split) <;> simp [answer, send, forceStop]
+            intro m h
+            rw [key] at h
+            rw [hq]; exact List.mem_cons_of_mem _ h
+  | closing =>
+    simp only [runClosing]
+    split
+    · intro m h; simpa [forceStop] using h
+    · cases hq : n.recvq with
+      | nil => intro m h; simp [hq] at h
+      | cons x rest =>
+        simp only
+        split <;> (intro m h; simp_all [forceStop])
+  | waitReturns => intro m h; exact h
+  | waitConnAckElect => intro m h; exact h
+
+/-- what is known about a node after a history: queued messages were injected, and a completed
+    capabilities exchange was made with an injected valid CER / CEA -/
+def Traced (evs : List Ev) (n : Node) : Prop :=
+  (∀ m ∈ n.recvq, Ev.inject m ∈ evs) ∧
+  (n.cexOk = true → ∃ m, Ev.inject m ∈ evs ∧ m.valid = true ∧ (m.kind = .cer ∨ m.kind = .cea))
+
+theorem traced_step (evs : List Ev) (n : Node) (e : Ev) (h : Traced evs n) : Traced (evs ++ [e]) (apply n e) := by
+  obtain ⟨h1, h2⟩ := h
+  have mono : ∀ x, x ∈ evs → x ∈ evs ++ [e] := fun x hx => List.mem_append_left _ hx
+  have keep : (n.cexOk = true → ∃ m, Ev.inject m ∈ evs ++ [e] ∧ m.valid = true ∧ (m.kind = .cer ∨ m.kind = .cea)) := by
+    intro hc; obtain ⟨m, a, b, c⟩ := h2 hc; exact ⟨m, mono _ a, b, c⟩
+  cases e with
+  | tick =>
+    simp only [apply]
+    unfold tick
+    by_cases hr : n.running = true
+    · simp only [hr, Bool.not_true, Bool.false_eq_true, ↓reduceIte]
+      constructor
+      · intro m hm
+        rw [goto_recvq] at hm
+        exact mono _ (h1 m (runState_recvq n m hm))
+      · intro hc
+        have hc' : (runState n).1.cexOk = true := by
+          unfold goto at hc
+          split at hc
+          · simp at hc
+          · exact hc
+        by_cases h0 : n.cexOk = true
+        · exact keep h0
+        · obtain ⟨m, rest, hq, hv, hk⟩ := cex_source n (by simpa using h0) hc'
+          refine ⟨m, mono _ (h1 m (by rw [hq]; exact List.mem_cons_self)), hv, ?_⟩
+          rcases hk with ⟨_, _, hk⟩ | ⟨_, hk⟩
+          · exact .inl hk
+          · exact .inr hk
+    · simp only [Bool.not_eq_true] at hr
+      simp only [hr, Bool.not_false, ↓reduceIte]
+      exact ⟨fun m hm => mono _ (h1 m hm), keep⟩
+  | inject m =>
+    refine ⟨?_, keep⟩
+    intro x hx
+    simp only [apply, List.mem_append, List.mem_singleton] at hx
+    rcases hx with hx | rfl
+    · exact mono _ (h1 x hx)
+    · exact List.mem_append_right _ (List.mem_singleton.mpr rfl)
+  | connAck => exact ⟨fun m hm => mono _ (h1 m hm), keep⟩
+  | connNack => exact ⟨fun m hm => mono _ (h1 m hm), keep⟩
+  | localStop => exact ⟨fun m hm => mono _ (h1 m hm), keep⟩
+  | peerDisc => exact ⟨fun m hm => mono _ (h1 m hm), keep⟩
+  | idle => exact ⟨fun m hm => mono _ (h1 m hm), keep⟩
+  | submit id =>
+    simp only [apply]
+    split
+    · exact ⟨fun m hm => mono _ (h1 m hm), keep⟩
+    · exact ⟨fun m hm => mono _ (h1 m hm), keep⟩
+  | restart =>
+    simp only [apply]
+    split
+    · exact ⟨by intro m hm; simp [init] at hm, by intro hc; simp [init] at hc⟩
+    · exact ⟨fun m hm => mono _ (h1 m hm), keep⟩
+
+theorem traced_run (role : Role) (evs : List Ev) : Traced evs (run role evs) := by
+  suffices ∀ (pre : List Ev) (n : Node), Traced pre n → Traced (pre ++ evs) (evs.foldl apply n) by
+    have := this [] (init role) ⟨by intro m hm; simp [init] at hm, by intro hc; simp [init] at hc⟩
+    simpa [run] using this
+  induction evs with
+  | nil => intro pre n h; simpa using h
+  | cons e es ih =>
+    intro pre n h
+    have := ih (pre ++ [e]) (apply n e) (traced_step pre n e h)
+    simpa [List.append_assoc] using this
+
+/-- HISTORY-LEVEL STATEMENT: whenever the reported state is Open (or Closing), the history contains an
+    inbound CER (server) / CEA (client) that passed the validity predicate — i.e. (by
+    `valid_cer_is_peer` / `valid_cea_is_peer`) one that carries the configured peer's Origin-Host
+    and Origin-Realm -/
+theorem open_needs_valid_cex_in_history (role : Role) (evs : List Ev)
+    (h : (run role evs).st = .opened ∨ (run role evs).st = .closing) :
+    ∃ m, Ev.inject m ∈ evs ∧ m.valid = true ∧ (m.kind = .cer ∨ m.kind = .cea) :=
+  (traced_run role evs).2 ((open_only_after_cex role evs).open_cex h)
+
 /-! ### non-vacuity: concrete histories -/
 
 def cerOk : PMsg := { kind := .cer, valid := true, okAddr := true, hbh := 7, e2e := 9, id := 0 }
